@@ -1,6 +1,7 @@
 package main
 
 import (
+	"time"
 	"os"
 	"runtime/debug"
 	"sync"
@@ -874,7 +875,10 @@ func (e *Engine) enter(s *State, f *Frame, from, to *ssa.BasicBlock) {
 	}
 	back := to.Dominates(from)
 	if ann == nil || ann.Unroll > 0 {
-		limit := 4096
+		// a loop without any annotation is only followed as far as a constant trip count plausibly goes; beyond that
+		// it needs an annotation (obligation loopN.unwind fails) - exploring thousands of symbolic iterations, each
+		// with a solver call at its fork, is how a check stops ending in bounded time
+		limit := 130
 		if ann != nil {
 			limit = ann.Unroll + 1
 		}
@@ -1824,6 +1828,9 @@ func (e *Engine) runPar(init *State, base int) []*State {
 				e.paths++
 				if e.paths-e.pathBase > 20000 && failure == nil {
 					failure = "path explosion"
+				}
+				if time.Now().After(e.genDeadline) && failure == nil && !e.genDeadline.IsZero() {
+					failure = "exploration budget exhausted (the function under contract no longer explores in bounded time)"
 				}
 				if !s.dead {
 					fin = append(fin, s)
